@@ -19,6 +19,7 @@ T3 = "quimb/tensor/tn3d/core.py"
 TC = "quimb/tensor/tensor_core.py"
 AG = "quimb/tensor/tnag/compress.py"
 
+_CORE3_GUARD = "                                if (max_bond is None) or (\n                                    bonds_size(t1, tn) > max_bond\n                                ):"
 _CORE2_GUARD = "                            if (max_bond is None) or (\n                                bonds_size(t1, tn) > max_bond\n                            ):"
 _SEQ_GUARD = "                if (chi is None) or bonds_size(t, t_neighb) > chi:"
 
@@ -50,16 +51,19 @@ MUTANTS = [
      "                            # (comment)\n" + _CORE2_GUARD, "benign"),
     # ------------------------------------------------------------ 3D _contract_boundary_core
     (T3, "TensorNetwork3D._contract_boundary_core::skip-guard-compare[_compress_between_tids#1]",
-     "                                if bonds_size(t1, tn) > max_bond:", "                                if bonds_size(t1, tn) == max_bond:",
+     _CORE3_GUARD, _CORE3_GUARD.replace("> max_bond", "== max_bond"),
      "expect-fail"),
     (T3, "TensorNetwork3D._contract_boundary_core::skip-guard-compare[_compress_between_tids#1]",
-     "                                if bonds_size(t1, tn) > max_bond:", "                                if bonds_size(t1, tn) < max_bond:",
+     _CORE3_GUARD, _CORE3_GUARD.replace("> max_bond", "< max_bond"),
      "expect-fail"),
     (T3, "TensorNetwork3D._contract_boundary_core::compress-iff-branch[_compress_between_tids#1]",
      "                        if not compress_late:\n                            (tid1,) = self.tag_map[tag1]",
      "                        if compress_late:\n                            (tid1,) = self.tag_map[tag1]", "expect-fail"),
-    (T3, "TensorNetwork3D._contract_boundary_core::skip-guard-", "                                if bonds_size(t1, tn) > max_bond:",
-     "                                if (max_bond is None) or bonds_size(t1, tn) > max_bond:", "benign"),  # the FIX of the reported defect
+    # the defect this obligation found (repaired in /repo by dd440607), re-introduced
+    (T3, "TensorNetwork3D._contract_boundary_core::skip-guard-none[_compress_between_tids#1]", _CORE3_GUARD,
+     "                                if bonds_size(t1, tn) > max_bond:", "expect-fail"),
+    (T3, "TensorNetwork3D._contract_boundary_core::skip-guard-", _CORE3_GUARD,
+     "                                if (max_bond is None) or bonds_size(t1, tn) > max_bond:", "benign"),
     # ------------------------------------------------------------ compressed contraction along a tree
     (TC, "TensorNetwork._contract_compressed_tid_sequence::skip-guard-compare[_compress_between_tids#1]", _SEQ_GUARD,
      "                if (chi is None) or bonds_size(t, t_neighb) == chi:", "expect-fail"),
